@@ -1,8 +1,28 @@
 (* C07 — Passage parameters bind like Python calls, are local, and never leak or linger.
-   Theorems (proofs: Proofs/EngineNav.v, Proofs/EngineUndo.v, Proofs/EngineParams.v): for every story and
-   every author-code oracle. *)
+   Theorems (proofs: Proofs/EngineNav.v, Proofs/EngineUndo.v, Proofs/EngineParams.v, Proofs/CallBindProofs.v): for every
+   story and every author-code oracle.
+
+   Last clause of the property ("a story that compiles never fails at run time for a missing, surplus, unknown or
+   doubly supplied argument") -- now theorems, second half of this file:
+     * one call site: the compiler's validator accepted the call (validate_single_call = POk tt), the engine's
+       argument evaluation succeeded => _bind_arguments reaches neither of its two structural raise sites
+       ("Required parameter not provided", "provided multiple times"); it returns the scope, or fails because a
+       DEFAULT expression of the signature failed (author code, C15).  The real _bind_arguments has no raise site
+       for a surplus positional or an unknown keyword (what is left over in the dict is ignored); for these the
+       theorem is that a validated call leaves nothing over.
+     * every compiled story (parse ... = POk story, arbitrary extractors and oracles): every jump token at any
+       depth and every choice offered in ANY state a history can reach is such a validated call site, and
+       signatures have distinct parameter names.
+     * whole operations / histories (step, run_all with the two raise sites made parameters are equal to the real
+       ones): `…_partial`, see there for the one hypothesis that is not derived from `parse` for arbitrary
+       extractors.
+   What the call-shape phase of harness/engine_props.py still carries: `shape_agrees` / `blank_shape` -- that the
+   two oracles describe the same call, i.e. that the compiler (ast.parse("_temp_(" + args + ")")) and the engine
+   (ast.parse("__directive__(" + args + ")"), skipped for a blank string) read an argument string with Python's
+   `ast` the same way -- and, as everywhere, that the two models follow the code. *)
 From Coq Require Import String List Bool ZArith Arith.
 From Bardic Require Import PyStr Value Compiled Engine EngineBase EngineNav EngineUndo EngineParams.
+From Bardic Require Import EngineHooks EngineCheck GraphProofs StoryWfChoose ParseBase ParseLine ParseMain CallBindProofs.
 Import ListNotations.
 
 (* the parameter scope ends when the navigation completes OR fails: the scope stack after any operation is
@@ -42,3 +62,326 @@ Theorem bind_is_python_call : forall orc ctx0 ps ad k,
   positional_prefix ad k -> bind_arguments orc ctx0 ps ad 0 [] = py_bind orc ctx0 ps ad.
 Proof. exact bind_arguments_spec. Qed.
 Print Assumptions bind_is_python_call.
+
+(* ======================================================================================== *)
+(* "A story that compiles never fails at run time for a missing, surplus, unknown or doubly supplied argument" *)
+
+(* The engine model raises ValueError at both structural sites of _bind_arguments (and enter_scope turns a failing
+   default into ValueError too), so the sites are told apart as in C12: bind_arguments_g dup missing is
+   bind_arguments with an ARBITRARY result at the "provided multiple times" site (dup) and at the "Required
+   parameter not provided" site (missing).  The real function is the instance with the real raises ... *)
+Theorem bind_sites_are_the_real_raises : forall orc ctx0 ad ps pi acc,
+  bind_arguments orc ctx0 ps ad pi acc = bind_arguments_g orc (Exc ValueError) (Exc ValueError) ctx0 ps ad pi acc.
+Proof. exact bind_arguments_is_g. Qed.
+Print Assumptions bind_sites_are_the_real_raises.
+
+(* ... and a theorem "bind_arguments_g dup missing … = bind_arguments …" for all dup, missing says that neither
+   site is reached.
+
+   One call site.  shape_agrees: whenever the engine's parse-and-evaluate of the argument string gives pos/kws,
+   the compiler's parse of the same string has that many positional arguments and those keyword names.  The
+   signature has distinct names (every compiled story: compiled_call_sites_validated below; needed:
+   distinct_parameter_names_needed). *)
+Theorem validated_call_binds : forall pp is_call orc passages,
+  shape_agrees pp orc ->
+  forall tg args tp,
+  validate_single_call pp is_call passages tg args = POk tt ->
+  String.eqb tg "@join" = false -> lookup tg passages = Some tp ->
+  NoDup (map pname (params tp)) ->
+  forall ctx pos kws dup missing,
+  o_args orc ctx args = Ok (pos, kws) ->
+  bind_arguments_g orc dup missing ctx (params tp) (number_args 0 pos ++ kws) 0 [] =
+  bind_arguments orc ctx (params tp) (number_args 0 pos ++ kws) 0 [].
+Proof. exact validated_call_binds_lemma. Qed.
+Print Assumptions validated_call_binds.
+
+(* the same without the device: if binding fails, it is a default expression of the signature that failed,
+   evaluated with the earlier parameters in view *)
+Theorem validated_call_fails_only_in_a_default : forall pp is_call orc passages,
+  shape_agrees pp orc ->
+  forall tg args tp,
+  validate_single_call pp is_call passages tg args = POk tt ->
+  String.eqb tg "@join" = false -> lookup tg passages = Some tp ->
+  NoDup (map pname (params tp)) ->
+  forall ctx pos kws e,
+  o_args orc ctx args = Ok (pos, kws) ->
+  bind_arguments orc ctx (params tp) (number_args 0 pos ++ kws) 0 [] = Exc e ->
+  exists q d acc, In q (params tp) /\ pdefault q = Some d /\ o_eval orc (update ctx acc) d = Exc e.
+Proof. exact validated_call_fails_only_in_a_default_lemma. Qed.
+Print Assumptions validated_call_fails_only_in_a_default.
+
+(* ... so when the defaults evaluate, binding succeeds *)
+Theorem validated_call_binds_when_defaults_evaluate : forall pp is_call orc passages,
+  shape_agrees pp orc ->
+  forall tg args tp,
+  validate_single_call pp is_call passages tg args = POk tt ->
+  String.eqb tg "@join" = false -> lookup tg passages = Some tp ->
+  NoDup (map pname (params tp)) ->
+  forall ctx pos kws,
+  o_args orc ctx args = Ok (pos, kws) ->
+  (forall q d acc, In q (params tp) -> pdefault q = Some d -> exists v, o_eval orc (update ctx acc) d = Ok v) ->
+  exists pv, bind_arguments orc ctx (params tp) (number_args 0 pos ++ kws) 0 [] = Ok pv.
+Proof. exact validated_call_binds_when_defaults_evaluate_lemma. Qed.
+Print Assumptions validated_call_binds_when_defaults_evaluate.
+
+(* surplus / unknown: nothing is left over for the engine to ignore -- every positional value has a parameter,
+   every keyword names a parameter, no parameter gets both *)
+Theorem validated_call_no_surplus_no_unknown : forall pp is_call orc passages,
+  shape_agrees pp orc ->
+  forall tg args tp,
+  validate_single_call pp is_call passages tg args = POk tt ->
+  String.eqb tg "@join" = false -> lookup tg passages = Some tp ->
+  forall ctx pos kws,
+  args <> ""%string -> o_args orc ctx args = Ok (pos, kws) ->
+  List.length pos <= List.length (params tp) /\
+  (forall k, In k (map fst kws) -> In k (map pname (params tp))) /\
+  (forall k, In k (firstn (List.length pos) (map pname (params tp))) -> ~ In k (map fst kws)).
+Proof. exact validated_call_no_surplus_no_unknown_lemma. Qed.
+Print Assumptions validated_call_no_surplus_no_unknown.
+
+(* the dict goto really builds (empty for no / blank argument text, without asking Python; blank_shape: the compiler's
+   parse of a blank string is the empty argument list) *)
+Theorem validated_engine_dict_binds : forall pp is_call orc passages,
+  shape_agrees pp orc ->
+  forall tg args tp,
+  validate_single_call pp is_call passages tg args = POk tt ->
+  String.eqb tg "@join" = false -> lookup tg passages = Some tp ->
+  NoDup (map pname (params tp)) ->
+  forall ctx ad dup missing,
+  blank_shape pp -> engine_arg_dict orc ctx args = Ok ad ->
+  bind_arguments_g orc dup missing ctx (params tp) ad 0 [] = bind_arguments orc ctx (params tp) ad 0 [].
+Proof. exact validated_engine_dict_binds_lemma. Qed.
+Print Assumptions validated_engine_dict_binds.
+
+(* why distinct names are a hypothesis of the call-site theorems: T(a, a) called as T(1) passes the validator (the
+   second `a` counts as supplied by the first positional argument) and stops at the "missing" site *)
+Theorem distinct_parameter_names_needed :
+  validate_single_call one_arg_pp (fun _ => true) dup_sig_passages "T" "1" = POk tt /\
+  shape_agrees one_arg_pp one_arg_orc /\
+  bind_arguments one_arg_orc [] [mkParam "a" None; mkParam "a" None] (number_args 0 [VInt 1] ++ []) 0 []
+  = Exc ValueError.
+Proof. exact distinct_names_needed. Qed.
+Print Assumptions distinct_parameter_names_needed.
+
+(* ---- every story the compiler returns (arbitrary extractors and oracles) ---- *)
+
+(* every call site at a position the renderer can report it from -- the passage's own choices, the choices of its
+   conditionals and loops at any depth (passage_choice), its jump tokens at any depth (passage_jump) -- went
+   through validate_single_call, a jump never targets @join, and parameter names are distinct *)
+Theorem compiled_call_sites_validated : forall pp is_call xs lines0 story,
+  parse pp is_call xs lines0 = POk story ->
+  story_calls_validated pp is_call story /\ story_params_distinct story.
+Proof. exact parse_ok_call_sites_validated_lemma. Qed.
+Print Assumptions compiled_call_sites_validated.
+
+(* a jump token at any depth of any passage: if its argument text evaluates, binding reaches neither site *)
+Theorem compiled_jump_site_binds : forall pp is_call xs lines0 story,
+  parse pp is_call xs lines0 = POk story ->
+  forall orc, shape_agrees pp orc ->
+  forall pid p tg a, get_passage story pid = Some p -> passage_jump p tg a ->
+  exists tp, get_passage story tg = Some tp /\
+    forall ctx pos kws dup missing, o_args orc ctx a = Ok (pos, kws) ->
+      bind_arguments_g orc dup missing ctx (params tp) (number_args 0 pos ++ kws) 0 [] =
+      bind_arguments orc ctx (params tp) (number_args 0 pos ++ kws) 0 [].
+Proof. exact parse_ok_jump_site_binds_lemma. Qed.
+Print Assumptions compiled_jump_site_binds.
+
+(* a choice offered in ANY state a history can reach (choose, undo, redo, goto, reset, reload, input, ...), other
+   than `-> @join`: its target is a passage, and if its argument text evaluates, binding reaches neither site *)
+Theorem compiled_offered_choice_binds : forall pp is_call xs lines0 story,
+  parse pp is_call xs lines0 = POk story ->
+  forall orc ctxkeys, shape_agrees pp orc ->
+  forall e rc, reach orc ctxkeys story e -> In rc (o_choices (current_out e)) ->
+  ch_target (rc_choice rc) <> "@join"%string ->
+  exists tp, get_passage story (ch_target (rc_choice rc)) = Some tp /\
+    forall ctx pos kws dup missing, o_args orc ctx (ch_args (rc_choice rc)) = Ok (pos, kws) ->
+      bind_arguments_g orc dup missing ctx (params tp) (number_args 0 pos ++ kws) 0 [] =
+      bind_arguments orc ctx (params tp) (number_args 0 pos ++ kws) 0 [].
+Proof. exact parse_ok_offered_choice_binds_lemma. Qed.
+Print Assumptions compiled_offered_choice_binds.
+
+Theorem compiled_offered_choice_fails_only_in_a_default : forall pp is_call xs lines0 story,
+  parse pp is_call xs lines0 = POk story ->
+  forall orc ctxkeys, shape_agrees pp orc ->
+  forall e rc, reach orc ctxkeys story e -> In rc (o_choices (current_out e)) ->
+  ch_target (rc_choice rc) <> "@join"%string ->
+  exists tp, get_passage story (ch_target (rc_choice rc)) = Some tp /\
+    forall ctx pos kws x, o_args orc ctx (ch_args (rc_choice rc)) = Ok (pos, kws) ->
+      bind_arguments orc ctx (params tp) (number_args 0 pos ++ kws) 0 [] = Exc x ->
+      exists q d acc, In q (params tp) /\ pdefault q = Some d /\ o_eval orc (update ctx acc) d = Exc x.
+Proof. exact parse_ok_offered_choice_fails_only_in_a_default_lemma. Qed.
+Print Assumptions compiled_offered_choice_fails_only_in_a_default.
+
+(* ---- whole operations and histories ---- *)
+
+(* step_b / run_all_b dup missing: EngineCheck.step / run_all with the two sites of _bind_arguments made parameters in
+   every enter_scope of every hop of every jump chain; the real ones are the instances with the real raises *)
+Theorem step_sites_are_the_real_raises : forall orc ctxkeys st e o,
+  step orc ctxkeys st e o = step_b orc ctxkeys st (Exc ValueError) (Exc ValueError) e o.
+Proof. exact step_is_b. Qed.
+Print Assumptions step_sites_are_the_real_raises.
+Theorem run_sites_are_the_real_raises : forall orc ctxkeys st v0 ops,
+  run_all orc ctxkeys st v0 ops = run_all_b orc ctxkeys st (Exc ValueError) (Exc ValueError) v0 ops.
+Proof. exact run_all_is_b. Qed.
+Print Assumptions run_sites_are_the_real_raises.
+
+(* PARTIAL.  No operation of a history reaches either site -- under story_specs_roundtrip: the engine gets a call
+   as ONE string `Target(args)` and splits it again with its own parenthesis scan (parse_spec); the hypothesis says
+   that for every call site of the story this gives back the (target, args) pair the compiler validated.  That is
+   what is missing: it is not a consequence of `parse … = POk story` for ARBITRARY block extractors (a token
+   `TJump "T" "1)(2, 3"` from an extractor passes the validator as two positional arguments, the engine reads
+   `T(1)(2, 3)` as T(1)).  It holds of everything extract_target_and_args produces (splitter_args_are_balanced,
+   choice_line_args_are_balanced, balanced_args_roundtrip below: all top-level choice and jump lines); for the real
+   block parser it is carried by the call-shape phase (sites choice-in-if / jump-in-if / choice-in-for / jump-in-for).
+   op_valid: a spec handed to goto() by the host application is one the engine can bind (valid_spec); every other
+   operation is unrestricted. *)
+Theorem compiled_step_never_binds_structurally_partial : forall pp is_call xs lines0 story,
+  parse pp is_call xs lines0 = POk story -> story_specs_roundtrip story ->
+  forall orc ctxkeys, shape_agrees pp orc -> blank_shape pp ->
+  forall dup missing e o, reach orc ctxkeys story e -> op_valid orc story o ->
+    step_b orc ctxkeys story dup missing e o = step orc ctxkeys story e o.
+Proof. exact parse_ok_step_never_binds_structurally_partial_lemma. Qed.
+Print Assumptions compiled_step_never_binds_structurally_partial.
+
+(* ... with the save slot of EngineCheck.run_all (StoryWfChoose.played) *)
+Theorem compiled_played_never_binds_structurally_partial : forall pp is_call xs lines0 story,
+  parse pp is_call xs lines0 = POk story -> story_specs_roundtrip story ->
+  forall orc ctxkeys, shape_agrees pp orc -> blank_shape pp ->
+  forall dup missing e slot o, played orc ctxkeys story e slot -> op_valid orc story o ->
+    step_b orc ctxkeys story dup missing e o = step orc ctxkeys story e o.
+Proof. exact parse_ok_played_never_binds_structurally_partial_lemma. Qed.
+Print Assumptions compiled_played_never_binds_structurally_partial.
+
+(* ... whole histories from __init__ on: the initial passage is entered without arguments and the compiler accepts
+   it only when every parameter has a default *)
+Theorem compiled_run_never_binds_structurally_partial : forall pp is_call xs lines0 story,
+  parse pp is_call xs lines0 = POk story -> story_specs_roundtrip story ->
+  forall orc ctxkeys, shape_agrees pp orc -> blank_shape pp ->
+  forall dup missing v0 ops, Forall (op_valid orc story) ops ->
+    run_all_b orc ctxkeys story dup missing v0 ops = run_all orc ctxkeys story v0 ops.
+Proof. exact parse_ok_run_never_binds_structurally_partial_lemma. Qed.
+Print Assumptions compiled_run_never_binds_structurally_partial.
+
+(* the part of story_specs_roundtrip that is proved: the compiler's splitter cuts the arguments at the parenthesis
+   at which the engine's scan of `args)` stops, so for a target without "(" (every passage name) re-reading
+   `Target(args)` gives back the pair *)
+Theorem splitter_args_are_balanced : forall t, args_balanced (snd (extract_target_and_args t)).
+Proof. exact extract_target_and_args_balanced. Qed.
+Print Assumptions splitter_args_are_balanced.
+Theorem choice_line_args_are_balanced : forall l c, parse_choice_line l = POk (Some c) -> args_balanced (ch_args c).
+Proof. exact parse_choice_line_balanced. Qed.
+Print Assumptions choice_line_args_are_balanced.
+Theorem balanced_args_roundtrip : forall tg a,
+  StoryWfProofs.no_paren tg = true -> args_balanced a -> spec_roundtrip tg a.
+Proof. exact balanced_roundtrip. Qed.
+Print Assumptions balanced_args_roundtrip.
+
+(* ---------------------------------------------------------------------------------------- *)
+(* non-vacuity: a signature T(p, q=p + 1), a table of argument strings that fills BOTH oracles (as the harness
+   fills both from one ast.parse), and every kind of call shape *)
+Local Open Scope string_scope.
+Definition ex_table (a : string) : option (list value * list (string * value)) :=
+  if String.eqb a "1, 2" then Some ([VInt 1; VInt 2], [])
+  else if String.eqb a "1, q=5" then Some ([VInt 1], [("q", VInt 5)])
+  else if String.eqb a "q=5, p=1" then Some ([], [("q", VInt 5); ("p", VInt 1)])
+  else if String.eqb a "1" then Some ([VInt 1], [])
+  else if String.eqb a "" then Some ([], [])
+  else if String.eqb a "1, 2, 3" then Some ([VInt 1; VInt 2; VInt 3], [])
+  else if String.eqb a "1, zz=3" then Some ([VInt 1], [("zz", VInt 3)])
+  else if String.eqb a "1, p=2" then Some ([VInt 1], [("p", VInt 2)])
+  else if String.eqb a "q=5" then Some ([], [("q", VInt 5)])
+  else None.
+Definition ex_pp : pyparse :=
+  mkPyparse (fun _ => true)
+            (fun a => match ex_table a with Some (pos, kws) => Some (List.length pos, map fst kws) | None => None end).
+Definition ex_orc : pyorc :=
+  mkOrc (fun ctx code => if String.eqb code "p + 1"
+                         then match lookup "p" ctx with Some (VInt n) => Ok (VInt (n + 1)) | _ => Exc NameError end
+                         else if String.eqb code "q"
+                         then match lookup "q" ctx with Some x => Ok x | None => Exc NameError end
+                         else Exc NameError)
+        (fun e _ => Ok e) (fun _ _ => Exc ValueError)
+        (fun _ a => match ex_table a with Some x => Ok x | None => Exc SyntaxError end).
+Definition ex_T : passage := mkPassage "T" [mkParam "p" None; mkParam "q" (Some "p + 1")] [] [] [] [] [].
+Definition ex_passages : list (string * passage) := [("T", ex_T)].
+Definition ex_validate (a : string) : pres unit := validate_single_call ex_pp (fun _ => true) ex_passages "T" a.
+Definition ex_bind (a : string) : res env :=
+  match o_args ex_orc [] a with
+  | Ok (pos, kws) => bind_arguments ex_orc [] (params ex_T) (number_args 0 pos ++ kws) 0 []
+  | Exc e => Exc e
+  end.
+
+Example ex_oracles_agree : shape_agrees ex_pp ex_orc /\ blank_shape ex_pp.
+Proof.
+  split.
+  - intros ctx args pos kws H. simpl in *. destruct (ex_table args) as [[p k]|]; [|discriminate].
+    inversion H; subst. reflexivity.
+  - intros args n ks Hsp H. simpl in H. unfold ex_table in H.
+    repeat match type of H with
+           | context [String.eqb args ?lit] =>
+               let E := fresh "E" in destruct (String.eqb args lit) eqn:E;
+               [apply String.eqb_eq in E; subst args; try discriminate Hsp; inversion H; split; reflexivity|]
+           end.
+    discriminate.
+Qed.
+(* exact / by keyword / keywords only / default used: accepted, and bound as Python binds them *)
+Example ex_exact : ex_validate "1, 2" = POk tt /\ ex_bind "1, 2" = Ok [("p", VInt 1); ("q", VInt 2)].
+Proof. split; vm_compute; reflexivity. Qed.
+Example ex_keyword : ex_validate "1, q=5" = POk tt /\ ex_bind "1, q=5" = Ok [("p", VInt 1); ("q", VInt 5)].
+Proof. split; vm_compute; reflexivity. Qed.
+Example ex_keywords_only : ex_validate "q=5, p=1" = POk tt /\ ex_bind "q=5, p=1" = Ok [("p", VInt 1); ("q", VInt 5)].
+Proof. split; vm_compute; reflexivity. Qed.
+Example ex_default_used : ex_validate "1" = POk tt /\ ex_bind "1" = Ok [("p", VInt 1); ("q", VInt 2)].
+Proof. split; vm_compute; reflexivity. Qed.
+(* too many / unknown keyword / positional and keyword / missing: rejected by the validator; the engine would have
+   ignored the first three silently and raised on the fourth *)
+Example ex_too_many : ex_validate "1, 2, 3" = PDiag (DSyntax "call:too-many-positional" 0) /\
+                      ex_bind "1, 2, 3" = Ok [("p", VInt 1); ("q", VInt 2)].
+Proof. split; vm_compute; reflexivity. Qed.
+Example ex_unknown_keyword : ex_validate "1, zz=3" = PDiag (DSyntax "call:unknown-keyword" 0) /\
+                             ex_bind "1, zz=3" = Ok [("p", VInt 1); ("q", VInt 2)].
+Proof. split; vm_compute; reflexivity. Qed.
+Example ex_duplicate : ex_validate "1, p=2" = PDiag (DSyntax "call:positional-and-keyword" 0) /\
+                       ex_bind "1, p=2" = Ok [("p", VInt 1); ("q", VInt 2)].
+Proof. split; vm_compute; reflexivity. Qed.
+Example ex_missing : ex_validate "q=5" = PDiag (DSyntax "call:missing-required" 0) /\ ex_bind "q=5" = Exc ValueError.
+Proof. split; vm_compute; reflexivity. Qed.
+Example ex_missing_all : ex_validate "" = PDiag (DSyntax "call:missing-required" 0) /\ ex_bind "" = Exc ValueError.
+Proof. split; vm_compute; reflexivity. Qed.
+
+(* the hypotheses of the history theorem are satisfiable: a compiled story with two call sites and a jump *)
+Definition ex_lines : list string :=
+  [":: Start"; "hi"; "+ [Go] -> T(1)"; "+ [Both] -> T(1, q=5)"; ""; ":: T(p, q=p + 1)"; "{q}"; "-> Start"].
+Definition ex_nl : string := String (Ascii.ascii_of_nat 10) EmptyString.
+Definition ex_story : story :=
+  mkStory "Start"
+    [("Start", mkPassage "Start" [] [TText "hi"; TText ex_nl]
+                 [Choice [TText "Go"] "T" "1" None true 0 [] []; Choice [TText "Both"] "T" "1, q=5" None true 0 [] []]
+                 [] [] []);
+     ("T", mkPassage "T" [mkParam "p" None; mkParam "q" (Some "p + 1")]
+             [TExpr "q"; TText ex_nl; TJump "Start" ""] [] [] [] [])] [] [].
+Example ex_story_compiles : parse ex_pp (fun _ => true) no_extractors ex_lines = POk ex_story.
+Proof. vm_compute. reflexivity. Qed.
+Example ex_story_roundtrip : story_specs_roundtrip ex_story.
+Proof.
+  intros k p Hin. simpl in Hin. destruct Hin as [E|[E|[]]]; inversion E; subst; split.
+  - intros c kd [[Hc _]|Hc]; simpl in Hc; [|contradiction].
+    destruct Hc as [<-|[<-|[]]]; right; vm_compute; reflexivity.
+  - intros tg a Hj. vm_compute in Hj. contradiction.
+  - intros c kd [[Hc _]|Hc]; simpl in Hc; contradiction.
+  - intros tg a Hj. vm_compute in Hj. destruct Hj as [E1|[]]. inversion E1; subst. vm_compute. reflexivity.
+Qed.
+Example ex_history_never_binds_structurally : forall dup missing ops,
+  Forall (op_valid ex_orc ex_story) ops ->
+  run_all_b ex_orc [] ex_story dup missing [] ops = run_all ex_orc [] ex_story [] ops.
+Proof.
+  intros dup missing ops H.
+  exact (compiled_run_never_binds_structurally_partial _ _ _ _ _ ex_story_compiles ex_story_roundtrip ex_orc []
+           (proj1 ex_oracles_agree) (proj2 ex_oracles_agree) dup missing [] ops H).
+Qed.
+(* ... and what that history shows: the default sees the earlier parameter, the keyword overrides it *)
+Example ex_history_plays :
+  map (fun ov => (fst ov, v_content (snd ov))) (run_all ex_orc [] ex_story [] [OpChoose 0; OpChoose 1]) =
+  [(ObsOk, "hi" ++ ex_nl); (ObsOk, "2" ++ ex_nl ++ ex_nl ++ ex_nl ++ "hi" ++ ex_nl);
+   (ObsOk, "5" ++ ex_nl ++ ex_nl ++ ex_nl ++ "hi" ++ ex_nl)].
+Proof. vm_compute. reflexivity. Qed.
